@@ -30,7 +30,22 @@ def main():
         rc = mod.replay(common.from_json(payload["payload"]))
         sys.exit(rc)
     try:
+        import time
+        t0 = time.time()
+        changed = common.source_changed(prop)
+        common.ESCALATION["changed"] = changed
+        if changed:
+            print(f"[{prop}] modelled source differs from the fingerprint the model was written against: "
+                  + "; ".join(f"{f}: {', '.join(n[:6])}" for f, n in changed.items()))
         rc = mod.check(a.tier, seed)
+        # The model was written against a particular source text. When that text has changed, agreement on the usual
+        # sample says less than it did: re-run the generators with further seeds (bounded in time) before concluding.
+        extra = 0
+        while rc == 0 and changed and a.tier == "quick" and extra < 5 and time.time() - t0 < float(os.environ.get("VERIF_ESCALATE_S", "200")):
+            extra += 1
+            print(f"[{prop}] source changed: extra run {extra} (seed {seed + 7919 * extra})")
+            common.SPEC_VIOLATIONS_SO_FAR = 0
+            rc = mod.check(a.tier, seed + 7919 * extra)
     except Exception:
         # The harness never crashes on the unchanged tree. If it does now, the code under test no
         # longer behaves as the harness (and hence the model) expects: the correspondence is broken
